@@ -111,7 +111,7 @@ impl Prop for C17 {
     }
     fn plan(&self, tier: Tier) -> Plan {
         match tier {
-            Tier::Quick => Plan { cases: 40_000, tape_len: 420 },
+            Tier::Quick => Plan { cases: 60_000, tape_len: 420 },
             Tier::Thorough => Plan { cases: 2_000_000, tape_len: 520 },
         }
     }
